@@ -206,7 +206,9 @@ def install(engine: Any) -> None:
     em[("ASTTokens", "get_text_range")] = get_text_range
 
     def atok_tree(it, base, node, fr):
-        return VExt("ast.Module", z3.Function("asttokens_tree", z3.IntSort(), z3.IntSort())(base.ident))
+        tree = VExt("ast.Module", z3.Function("asttokens_tree", z3.IntSort(), z3.IntSort())(base.ident))
+        it.path.add_fact(ast_is(it, tree, "Module"))  # ASTTokens(source, parse=True) parses a module
+        return tree
 
     engine.ext_attrs[("ASTTokens", "tree")] = atok_tree
 
